@@ -146,3 +146,42 @@ func WideNestedTree(t *rapid.T, ds []ref.Directive, n int) Tree {
 	}
 	return tree
 }
+
+// DeepChainTree deals the directives over a chain main -> c1 -> ... -> c<depth> of includes (every file includes
+// the next one; some links go through nested directories and back with ../), deeper than any tree of
+// SplitIntoTree. Within a file the directives keep their relative order.
+func DeepChainTree(t *rapid.T, ds []ref.Directive, depth int) Tree {
+	names := []string{"main.knut"}
+	dir := "."
+	for i := 1; i <= depth; i++ {
+		switch rapid.IntRange(0, 3).Draw(t, "chainDir") {
+		case 0:
+			dir = path.Join(dir, fmt.Sprintf("n%d", i))
+		case 1:
+			if dir != "." {
+				dir = path.Dir(dir)
+			}
+		}
+		names = append(names, path.Join(dir, fmt.Sprintf("c%d.knut", i)))
+	}
+	parts := make([][]string, len(names))
+	for _, d := range ds {
+		k := rapid.IntRange(0, len(names)-1).Draw(t, "file")
+		parts[k] = append(parts[k], d.Render())
+	}
+	tree := Tree{Files: map[string]string{}, Main: "main.knut", Depth: depth}
+	for i, name := range names {
+		body := parts[i]
+		if i+1 < len(names) {
+			rel, err := filepath.Rel(path.Dir(name), names[i+1])
+			if err != nil {
+				panic(err)
+			}
+			line := ref.Directive{Kind: ref.KInclude, Path: filepath.ToSlash(rel)}.Render()
+			pos := rapid.IntRange(0, len(body)).Draw(t, "incPos")
+			body = append(body[:pos:pos], append([]string{line}, body[pos:]...)...)
+		}
+		tree.Files[name] = strings.Join(body, "")
+	}
+	return tree
+}
